@@ -10,4 +10,7 @@ open Strengths.Gen.PyNumeric
 limited number of digits (the model computes its values exactly and its texts through `repr`) -/
 theorem value_processing_full_precision : fullPrecision inv_value_processing = true := by decide +kernel
 
+/-- `value_processing.py` takes no maximum / minimum / absolute value and swallows no exception: nothing it computes is clamped -/
+theorem value_processing_no_clamping : clamp_value_processing = [] := by decide +kernel
+
 end Strengths.PyNumeric
